@@ -673,6 +673,77 @@ pub fn long_stream(rng: &mut Rng, max_len: usize) -> Vec<u8> {
     s
 }
 
+/// A long run of dead candidates in front of and between deliverable frames: what a scanner sees when it is pointed
+/// at foreign binary data, at a burst of damaged frames or at a line stuck at 0xD3.  The number of rejected candidates
+/// in one scanner call is aimed at the places where a counter, a depth or a budget would give out.
+pub fn flood_stream(rng: &mut Rng) -> (Vec<u8>, &'static str) {
+    const COUNTS: [i64; 21] = [127, 128, 255, 256, 257, 1023, 1024, 1025, 4095, 4096, 4097, 8191, 8192, 8193, 16383, 16384, 32767, 32768, 65535, 65536, 65537];
+    let n = match rng.below(3) {
+        0 => *rng.pick(&COUNTS),
+        1 => (*rng.pick(&COUNTS) + rng.range(-3, 3)).max(1),
+        _ => rng.range(200, 70_000),
+    } as usize;
+    let mut s: Vec<u8> = Vec::new();
+    if rng.bool() {
+        let l = pick_len(rng);
+        let p = rng.bytes(l);
+        s.extend(crc::frame(&p));
+    }
+    let kind = match rng.below(4) {
+        0 => {
+            // every byte a candidate announcing 979 bytes; complete while enough bytes follow
+            s.extend(std::iter::repeat(0xD3u8).take(n.min(24_000)));
+            "flood_of_preamble_bytes"
+        }
+        1 => {
+            for _ in 0..n {
+                let l = rng.usize_below(3);
+                let p = rng.bytes(l);
+                let mut f = crc::frame(&p);
+                let k = f.len() - 1 - rng.usize_below(3);
+                f[k] ^= 1 << rng.below(8);
+                s.extend(f);
+            }
+            "flood_of_tiny_damaged_frames"
+        }
+        2 => {
+            let p = rng.bytes(19);
+            let f = crc::frame(&p);
+            for _ in 0..n.min(20_000) {
+                let mut g = f.clone();
+                let b = 24 + rng.usize_below(g.len() * 8 - 24);
+                g[b / 8] ^= 0x80 >> (b % 8);
+                s.extend(g);
+            }
+            "flood_of_damaged_copies_of_one_frame"
+        }
+        _ => {
+            for _ in 0..n {
+                s.extend_from_slice(&[0xD3, 0x00, 0x00, 0xFF, rng.below(256) as u8, 0x01]);
+            }
+            "flood_of_empty_frames_with_wrong_checksum"
+        }
+    };
+    for _ in 0..rng.range(1, 3) {
+        let l = pick_len(rng);
+        let p = rng.bytes(l);
+        s.extend(crc::frame(&p));
+    }
+    if rng.bool() {
+        s.extend(std::iter::repeat(0xD3u8).take(rng.usize_below(300)));
+        let l = pick_len(rng);
+        let p = rng.bytes(l);
+        s.extend(crc::frame(&p));
+    }
+    if rng.chance(1, 3) {
+        let p = rng.bytes(40);
+        let f = crc::frame(&p);
+        let cut = rng.range(1, f.len() as i64 - 1) as usize;
+        s.extend_from_slice(&f[..cut]);
+    }
+    (s, kind)
+}
+
 fn pick_len(rng: &mut Rng) -> usize {
     match rng.below(10) {
         0 => 0,
